@@ -230,6 +230,61 @@ def get_case(script, handler_outcomes, final_status, file_backed, msg_id=9, cons
 
 # ------------------------------------------------------------------------------------------------
 
+def repeated_moves(nmoves, creds, lazy=False):
+    """Several C-MOVE requests on one association, all to the same destination, which the application describes
+    with ONE dict it keeps in its registry of known nodes (AE title, address, port, optionally user name and
+    password).  Every move goes to the destination as designated - with the same credentials every time."""
+    from pynetdicom2 import sopclass
+    case = {'kind': 'repeated-moves', 'moves': nmoves, 'creds': creds, 'lazy': lazy}
+    dest = dict(REMOTE)
+    if creds >= 1:
+        dest['username'] = 'mover'
+    if creds >= 2:
+        dest['password'] = 's3cret'
+    per_move = [[svc.simple_ds(PatientName='P%d' % i, PatientID='M%d' % m, SOPClassUID=svc.SC_STORAGE,
+                               SOPInstanceUID='1.2.826.0.1.3680043.9.19.%d.%d' % (m + 1, i + 1)) for i in range(2)]
+                for m in range(nmoves)]
+    calls = []
+
+    def on_move(ctx, ds, destination):
+        m = len(calls)
+        calls.append(destination)
+        return dest, 2, iter(per_move[m])
+    ae = svc.make_server({'on_receive_move': on_move}, [sopclass.qr_move_scp])
+    ae.add_scu(sopclass.storage_scu, [svc.SC_STORAGE])
+    ident = svc.enc_ds(svc.simple_ds(PatientID='1', QueryRetrieveLevel='PATIENT'))
+    reqs = [{0x0002: svc.PATIENT_MOVE, 0x0100: 0x0021, 0x0110: 10 + m, 0x0600: 'DEST', 0x0700: 0} for m in range(nmoves)]
+    try:
+        acc, fac, exc = fd.run_acceptor(ae, [svc.primary_plan([(1, svc.PATIENT_MOVE)], [(r, ident, 1) for r in reqs])] +
+                                        [svc.sub_plan([0]) for _ in range(nmoves)], lazy=lazy)
+    finally:
+        ae.server_close()
+    if exc is not None:
+        raise Violation('%s:repeated-moves:exception:%s' % (PROP, lib_frame(exc)), '%d moves to one destination raised %r'
+                        % (nmoves, exc), case)
+    if len(fac.instances) != 1 + nmoves:
+        raise Violation('%s:repeated-moves:associations' % PROP, '%d moves, %d sub-associations' % (nmoves, len(fac.instances) - 1), case)
+    finals = [r for r in fac.instances[0].sent_msgs() if r['fields'].get(0x0900) != 0xFF00]
+    if [r['fields'].get(0x0120) for r in finals] != [10 + m for m in range(nmoves)]:
+        raise Violation('%s:repeated-moves:finals' % PROP, 'final responses for message ids %r'
+                        % [r['fields'].get(0x0120) for r in finals], case)
+    for m in range(nmoves):
+        sub = fac.instances[1 + m]
+        rq = sub.sent_pdus(1)
+        if not rq or rq[0]['spec'].get('t') != 1:
+            raise Violation('%s:repeated-moves:no-request' % PROP, 'move %d: no A-ASSOCIATE-RQ to the destination' % (m + 1), case)
+        ident_items = [s_ for it in rq[0]['spec']['items'] if it['t'] == 0x50 for s_ in it['subs'] if s_['t'] == 0x58]
+        want = [] if creds == 0 else [(1, 'mover', '')] if creds == 1 else [(2, 'mover', 's3cret')]
+        got = [(i['type'], i['prim'], i['sec']) for i in ident_items]
+        if got != want:
+            raise Violation('%s:repeated-moves:credentials' % PROP, 'move %d of %d: the destination was designated with %s, the '
+                            'sub-association presents %r' % (m + 1, nmoves, 'user name and password' if creds == 2 else
+                                                             'user name' if creds else 'no identity', got), case)
+        stores = [s_['fields'].get(0x1000) for s_ in sub.sent_msgs()]
+        if stores != [str(d.SOPInstanceUID) for d in per_move[m]]:
+            raise Violation('%s:repeated-moves:stores' % PROP, 'move %d: instances sent %r' % (m + 1, stores), case)
+
+
 def run_move_enum(ctx, job):
     warnings.simplefilter('ignore')
     for n in job['ns']:
@@ -287,7 +342,7 @@ def run(ctx):
     warnings.simplefilter('ignore')
     ctx.rule = ('C-MOVE provider: every outcome string over {success, warning, failure} for 0-4 sub-operations '
                 '(exhaustive), sampled for 5-8, the default handler (nothing to move, destination unknown), boundary '
-                'message/context ids; C-GET user: peer scripts interleaving 0-8 C-STORE requests (two SOP classes, '
+                'message/context ids; 1-3 moves on one association to one destination described by one dict (with and without credentials);  C-GET user: peer scripts interleaving 0-8 C-STORE requests (two SOP classes, '
                 'in-memory and file-backed) with pending C-GET responses, handler outcomes success/warning/failure/'
                 'EventHandlingError, final statuses success/warning/failure/cancel; non-trivial = n>=2 with mixed '
                 'outcomes, n=0, or interleaved pending responses')
@@ -296,6 +351,12 @@ def run(ctx):
                        'destination = AE title and presentation address handed to the provider for the sub-association']
     parallel(ctx, run_move_enum, [{'ns': [0, 1, 2]}, {'ns': [3]}, {'ns': [4]}])
     run_get_enum(ctx)
+    for nmoves in (1, 2, 3):
+        for creds in (0, 1, 2):
+            for lazy in (False, True):
+                ctx.case(('repeated-moves', nmoves, creds, lazy), nmoves >= 2, labels=['repeated-moves', 'creds=%d' % creds],
+                         sample={'moves': nmoves, 'credentials': creds, 'lazy': lazy})
+                ctx.check(repeated_moves, nmoves, creds, lazy)
     if ctx.thorough:
         parallel(ctx, shard, [{'n': 1500} for _ in range(16)])
     else:
@@ -304,7 +365,9 @@ def run(ctx):
 
 def replay(case):
     warnings.simplefilter('ignore')
-    if case['kind'] == 'move':
+    if case['kind'] == 'repeated-moves':
+        repeated_moves(case['moves'], case['creds'], case.get('lazy', False))
+    elif case['kind'] == 'move':
         move_case(case['n'], case['outcomes'], case['msg_id'], case['pc_id'], case.get('default', False), None, case.get('lazy', False))
     else:
         get_case(case['script'], case['handler_outcomes'], case['final_status'], case['file_backed'], case['msg_id'])
